@@ -184,6 +184,9 @@ func (t *TrafBox) Info(w io.Writer, specificBoxLevels, indent, indentStep string
 func (t *TrafBox) OptimizeTfhdTrun() error {
 	tfhd := t.Tfhd
 	trun := t.Trun
+	if trun == nil {
+		return nil // No trun, e.g. a track without samples in a multi-track fragment. Nothing to optimize
+	}
 	if len(trun.Samples) == 0 {
 		return errors.New("no samples in trun")
 	}
